@@ -203,6 +203,10 @@ def gen_enum(seed, k):
             # computes in `isize` (`1 << 63` is isize::MIN, `3 << 62` is negative)
             forms = ["1 << 63" if d == -2 ** 63 else "3 << 62" if d == -2 ** 62 else "1 << %d" % (d.bit_length() - 1)]
             maybe_refused.append(True)
+        if not int_repr and 0 < d < 2 ** 62 and rng.random() < 0.15:
+            # a double negation: refused, or the positive value
+            forms = [rng.choice(["-(-%d)" % d, "- -%d" % d])]
+            maybe_refused.append(True)
         if int_repr:
             forms += ["(%d) + 1" % (d - 1) if d - 1 >= lo else "%d" % d, "%d * 1" % d if d >= 0 else "-(%d)" % (-d)]
             if d < 0:
